@@ -2084,6 +2084,77 @@ end Goml.Gen
 """)
 
 EXTRACTORS += [c07_gen_mono_lookup]
+
+
+# ---------------------------------------------------------------- C07: the instance key and the order in which a request finds its bindings
+def c07_gen_mono_key():
+    """`SubstKey::new` (what two requests must agree on to be ONE instance: the `(parameter, type)` entries sorted by
+    parameter name, compared as a `Vec`) and the order in which the two request routes of `mono_expr` — a call (case
+    `ECall`) and a generic function used as a value (`specialize_fn_value`) — unify the parts of the callee's
+    signature, i.e. the insertion order of the substitution each of them hands to `ensure_instance`."""
+    t = _norm(src("crates/compiler/src/mono.rs"))
+    if "#[derive(Debug, Clone, PartialEq, Eq, Hash)] struct SubstKey(Vec<(String, Ty)>);" not in t:
+        raise Exception("anchor lost: mono.rs `struct SubstKey(Vec<(String, Ty)>)` with derived PartialEq/Eq/Hash (an ordered list of entries)")
+    m = re.search(r"impl SubstKey \{ fn new\(s: &Subst\) -> Self \{ (.*?) \} \}", t)
+    if not m:
+        raise Exception("anchor lost: mono.rs `impl SubstKey { fn new(s: &Subst) -> Self { … } }`")
+    body = m.group(1)
+    collect = "s.iter().map(|(k, v)| (k.clone(), v.clone())).collect()"
+    if body == f"let mut entries: Vec<(String, Ty)> = {collect}; entries.sort_by(|a, b| a.0.cmp(&b.0)); Self(entries)":
+        order = "sortedByName"
+    elif body == f"Self({collect})" or body == f"let entries: Vec<(String, Ty)> = {collect}; Self(entries)":
+        order = "insertionOrder"
+    else:
+        raise Exception("anchor lost: SubstKey::new is neither `entries sorted by name` nor `entries as inserted`: " + body[:200])
+    if t.count("SubstKey::new(") != 1 or "fn ensure_instance(&mut self, name: &str, s: Subst) -> String { let key = SubstKey::new(&s);" not in t:
+        raise Exception("anchor lost: mono.rs builds a SubstKey somewhere else than at the head of Ctx::ensure_instance")
+
+    def parts(fn_text, what, p_call, r_call):
+        if fn_text.count(p_call) != 1 or fn_text.count(r_call) != 1 or fn_text.count("unify(") != 2:
+            raise Exception(f"anchor lost: {what} no longer unifies the parameter types (`{p_call}`) and the result type (`{r_call}`) exactly once each")
+        return ["params", "ret"] if fn_text.find(p_call) < fn_text.find(r_call) else ["ret", "params"]
+
+    m = re.search(r"fn specialize_fn_value\(ctx: &mut Ctx, name: &str, ty: &Ty\) -> Option<String> \{(.*?)Some\(ctx\.ensure_instance\(&generic_func_name, subst\)\) \}", t)
+    if not m:
+        raise Exception("anchor lost: mono.rs `fn specialize_fn_value … Some(ctx.ensure_instance(&generic_func_name, subst)) }`")
+    value_order = parts(m.group(1), "specialize_fn_value", "unify(pt, at, &mut subst)", "unify(&callee.ret_ty, ret_ty, &mut subst)")
+    m = re.search(r"let mut call_subst: Subst = IndexMap::new\(\);(.*?)let spec = ctx\.ensure_instance\(&generic_func_name, call_subst\);", t)
+    if not m:
+        raise Exception("anchor lost: mono.rs, case ECall: `let mut call_subst … let spec = ctx.ensure_instance(&generic_func_name, call_subst);`")
+    call_order = parts(m.group(1), "mono_expr (case ECall)", "unify(pt, at, &mut call_subst)", "unify(&callee.ret_ty, &new_ty, &mut call_subst)")
+    if t.count("ensure_instance(&generic_func_name") != 2:
+        raise Exception("anchor lost: mono.rs requests instances of generic functions at other places than ECall and specialize_fn_value")
+    ll = lambda xs: "[" + ", ".join("." + x for x in xs) + "]"
+    write_if_changed("MonoKey.lean", f"""/- GENERATED by tools/extract.py from crates/compiler/src/mono.rs (SubstKey::new, specialize_fn_value, mono_expr case ECall) — do not edit; regenerated on every ./check run -/
+
+namespace Goml.Gen
+
+/-- what `SubstKey::new` does with the entries of the substitution before they are compared (as a `Vec`) -/
+inductive SubstKeyOrder where
+  /-- `entries.sort_by(|a, b| a.0.cmp(&b.0))`: by parameter name -/
+  | sortedByName
+  /-- the entries in the order the request inserted them -/
+  | insertionOrder
+  deriving DecidableEq, Repr, Inhabited
+
+def substKeyOrder : SubstKeyOrder := .{order}
+
+/-- the parts of a callee's signature a request unifies with the use site -/
+inductive SigPart where
+  | params
+  | ret
+  deriving DecidableEq, Repr, Inhabited
+
+/-- a call (`mono_expr`, case `ECall`): the order of the `unify` calls that fill `call_subst` -/
+def callUnifyOrder : List SigPart := {ll(call_order)}
+
+/-- a generic function used as a value (`specialize_fn_value`): the order of the `unify` calls that fill `subst` -/
+def valueUnifyOrder : List SigPart := {ll(value_order)}
+
+end Goml.Gen
+""")
+
+EXTRACTORS += [c07_gen_mono_key]
 EXTRACTORS += [gen_dce_tables]
 
 # ---------------------------------------------------------------- C09: guards of anf.rs
